@@ -82,6 +82,11 @@ def gen_trace(seed, world, tier, mode=None):
     else:
         cfg = {"tol": tol, "max_iter": R.choice([budget, 500]),
                "preconditioner_rank": 0 if kind == "cgne" else R.randint(1, n)}
+        if kind == "cgne" and not wrong and cond <= 10 and R.random() < 0.4:
+            # the tightest budget that provably suffices: CG terminates after as many steps as
+            # there are distinct singular values (1 for an isometry; n + 2 leaves rounding room,
+            # 0 failures in 6000 trials on the unchanged tree)
+            cfg["max_iter"] = 1 if cond == 1 else n + 2
         cls, meth = "solver.CGNEQSolver", "compute"
     if cfg_seed is not None:
         cfg["seed"] = cfg_seed
@@ -283,7 +288,10 @@ class Hooks(BaseHooks):
                 if c > a * (1 + 1e-9) + 1e-14 * mt["cond"]:
                     viol.append(V("cgne_monotone", i, f"CGNE residual increases: {a:.6e} -> {c:.6e}"))
                     break
-            if not fault.get("line") and cfg["max_iter"] >= 400 and mt["cond"] <= 1e3:
+            tight_ok = (mt["cond"] <= 1.0 + 1e-9 and cfg["max_iter"] >= 1) or \
+                       (mt["cond"] <= 10.0 * (1 + 1e-9) and cfg["max_iter"] >= n + 2)
+            if not fault.get("line") and not tags.get("wrong_orientation") \
+                    and ((cfg["max_iter"] >= 400 and mt["cond"] <= 1e3) or tight_ok):
                 if true > tol * (1 + 1e-6) + 1e-12 * mt["cond"] ** 2:
                     viol.append(V("cgne_liveness", i,
                                   f"CGNE with budget {cfg['max_iter']}: ||XA - I||_F/sqrt(n) = {true:.3e} > tol {tol:g} "
